@@ -21,7 +21,7 @@ func init() {
 			"(R-UNIFY) unifyType has a case for every type the statement lists (int, int8, int16, int32, uint8..uint64, []int, []int32, time.Time, time.Duration) yielding int64 / []int64 built by conversion, .Unix() or division by the constant time.Second, element i from element i, and both fetcher constructors pass every bound value through it; " +
 			"(R-VARNODE) the variable node built by parseVariable carries the token's text as name and VariableKeyMap[that same text] as key, parseUnknownVariable uses UndefinedVarKey, and MapVarFetcher looks up by name / SliceVarFetcher by key. NOT decided: the value read end-to-end under permuted layouts; exhaustion of the int16 key space.",
 		Run:       runC11,
-		Witnesses: c11Witnesses,
+		Witnesses: append(append([]Witness{}, delWitnessesC11...), c11Witnesses...),
 	})
 }
 
@@ -416,6 +416,38 @@ func ruleFetchGate(w *World, r *Report) {
 		return
 	}
 	fname := w.Name(fn)
+	// every Ctx handed out carries a fetcher: the value stored into Ctx.VariableFetcher is, on every way in, a
+	// constructed fetcher and never the nil interface (a branch that forgets to assign leaves the zero value, and the
+	// first Get of an evaluation dereferences it)
+	EachInstr(fn, func(in ssa.Instruction) {
+		st, ok := in.(*ssa.Store)
+		if !ok {
+			return
+		}
+		if tn, fld, _, okf := fieldOf(st.Addr); !okf || tn != "Ctx" || fld != "VariableFetcher" {
+			return
+		}
+		nilWay := false
+		seen := map[ssa.Value]bool{}
+		var walk func(v ssa.Value)
+		walk = func(v ssa.Value) {
+			if seen[v] {
+				return
+			}
+			seen[v] = true
+			if isNilConst(v) {
+				nilWay = true
+				return
+			}
+			if phi, okp := v.(*ssa.Phi); okp {
+				for _, e := range phi.Edges {
+					walk(e)
+				}
+			}
+		}
+		walk(st.Val)
+		r.Check(!nilWay, rule, w.InstrPos(st), fname, "Ctx.VariableFetcher = "+describe(st.Val), "a constructed fetcher on every path", "on some path the context is built with a nil fetcher: the first variable of an evaluation dereferences it")
+	})
 	n := 0
 	bodies := sliceFetcherBodies(w)
 	isBody := func(f *ssa.Function) bool {
